@@ -1112,6 +1112,49 @@ def c20_txt_evicted_without_srv(ctx):
     return q.result()
 
 
+def c01_name_cap_operand(ctx):
+    q = Q("c01_name_cap_operand", ["DnsIncoming::read_name (the 255-byte name cap)"],
+          "every explored path of read_name that appends a label (first loop iteration, opaque slice/UTF-8 calls)",
+          ["calls are opaque; the operand compared with MAX_NAME_LEN is traced to the call that produced it"])
+    f = ctx.funcs[ctx.fn("::read_name")]
+    name_local = f.debug.get("name")
+    if not name_local or not re.fullmatch(r"_\d+", name_local):
+        q.unknown.append("local `name` not found in read_name")
+        return q.result()
+    cap = ctx.consts.get("MAX_NAME_LEN")
+    if not cap or not cap[0].startswith("255"):
+        q.unknown.append(f"MAX_NAME_LEN is {cap}")
+        return q.result()
+    ex = Explorer(ctx.funcs, ctx.consts, max_paths=1500)
+    paths = ex.explore(f.name)
+    n = 0
+    for i, p in enumerate(paths):
+        calls = [e for e in p.events if e[0] == "call"]
+        appended = [e for e in calls if "add_assign" in e[1] or e[1].endswith("push_str")]
+        if not appended:
+            continue
+        lens = []
+        for j, e in enumerate(p.events):
+            if e[0] == "call" and e[1].endswith("String::len") and isinstance(e[2][0], Ref) and isinstance(e[2][0].obj, tuple) and e[2][0].obj[-1] == name_local:
+                rets = [r for r in p.events[j:] if r[0] == "ret" and r[1].endswith("String::len")]
+                if rets and isinstance(rets[0][2], BV):
+                    lens.append(rets[0][2].e)
+        ok = False
+        for c in p.cond:
+            vs = z3_vars(c)
+            if any(any(v.eq(l) for l in lens) for v in vs) and "255" in str(c):
+                ok = True
+        if ok:
+            n += 1
+        elif p.outcome in ("return",) or p.outcome.startswith("cut"):
+            q.fail.append(("a label is appended to the name without the accumulated NAME length being compared with the 255-byte cap (RFC 1035 2.3.4): names can grow out of proportion to the datagram", f"path {i} ({p.outcome})"))
+    if n == 0 and not q.fail:
+        q.unknown.append("no path appends a label")
+    else:
+        q.nontrivial += min(n, 2)
+    return q.result()
+
+
 def z3_vars(e):
     out, seen, stack = [], set(), [e]
     while stack:
@@ -1310,5 +1353,7 @@ SPECS = {
     "C12": [c12_poll_timeout, c12_ipcheck_rearm, c12_hostname_timeout_timer, c12_conflict_probe_timer, c12_tiebreak_retry_timer, c11_cache_flush_rule, c05_verify_deadline],
     "C19": [c19_browse_backoff, c19_hostname_backoff, c19_resolve_retry, c19_initial_delay, c19_rerun_due, c19_browse_listener_gone],
     "C08": [c08_tiebreak_count_operands],
+    "C01": [c01_name_cap_operand],
+    "C15": [c01_name_cap_operand],
     "C20": [c20_not_for_us_paths, c20_txt_evicted_without_srv, c05_evict_predicate],
 }
